@@ -37,6 +37,31 @@ def documented(e):
     return isinstance(e, ok)
 
 
+def mixed_bracket_use(desc):
+    """einx's stated bracket rule (tutorial + parse_op): an axis name is used either inside brackets or outside
+    brackets in one description, never both. Own tokenisation; None when brackets are unbalanced."""
+    depth = 0
+    marked, unmarked = set(), set()
+    i = 0
+    while i < len(desc):
+        ch = desc[i]
+        if ch == "[":
+            depth += 1
+        elif ch == "]":
+            depth -= 1
+            if depth < 0:
+                return None
+        m = _NAME.match(desc, i)
+        if m:
+            (marked if depth > 0 else unmarked).add(m.group(0))
+            i = m.end()
+            continue
+        i += 1
+    if depth != 0:
+        return None
+    return bool(marked & unmarked)
+
+
 def corruptions(case, rng):
     """Yield (edit name, desc, shapes, kwargs, n_tensors_delta, adjudicable)."""
     desc = case["desc"]
@@ -86,6 +111,21 @@ def corruptions(case, rng):
         j = desc.index("]", i)
         out.append(("bracket-removed", desc[:i] + desc[i + 1 : j] + desc[j + 1 :], shapes, kw, False))
         out.append(("bracket-unclosed", desc[:j] + desc[j + 1 :], shapes, kw, False))
+    # one bracket moved by one item; a bracketed axis additionally kept un-bracketed
+    moved = [(m, "left") for m in re.finditer(r"([A-Za-z_]\w*(?:\.\.\.)?) \[", desc)] + [(m, "right") for m in re.finditer(r"\] ([A-Za-z_]\w*(?:\.\.\.)?)", desc)]
+    if moved:
+        m, side = rng.choice(moved)
+        if side == "left":
+            out.append(("bracket-moved-left", desc[: m.start()] + "[" + m.group(1) + " " + desc[m.end() :], shapes, kw, False))
+        else:
+            out.append(("bracket-moved-right", desc[: m.start()] + " " + m.group(1) + "]" + desc[m.end() :], shapes, kw, False))
+    inside = [m.group(1) for m in re.finditer(r"\[([^\[\]]*)\]", desc)]
+    inside_names = [n for txt in inside for n in _NAME.findall(txt)]
+    if inside_names and "->" in desc:
+        out.append(("bracketed-axis-kept-in-output", desc + " " + rng.choice(inside_names), shapes, kw, False))
+    if inside_names:
+        n0 = rng.choice(inside_names)
+        out.append(("bracketed-axis-also-first", n0 + " " + desc, shapes, kw, False))
     if "->" in desc:
         out.append(("arrow-doubled", desc.replace("->", "-> ->", 1), shapes, kw, False))
     if "(" in desc:
@@ -150,6 +190,8 @@ def work(item):
             ill = infeasible(case, shapes, kw, timeout_ms)
         elif adjud == "count":
             ill = True
+        elif mixed_bracket_use(desc):
+            ill, adjud = True, "bracket-rule"
         r["ill_formed"] = ill
         st = "holds"
         if r["outcome"] in INTERNAL or (r["outcome"] == "CallOperationError" and r.get("cause") in INTERNAL):
@@ -157,7 +199,7 @@ def work(item):
         elif r["outcome"] not in ("returned",) and r.get("dispatch_before_exception", 0) > 0 and ill is not False:
             st, r["kind"] = "violation?", "backend-computation-before-rejection"
         elif ill is True and r["outcome"] == "returned":
-            st, r["kind"] = "violation?", "accepted-but-no-assignment-exists" if adjud is True else "accepted-with-wrong-argument-count"
+            st, r["kind"] = "violation?", "accepted-but-no-assignment-exists" if adjud is True else ("accepted-although-axis-is-bracketed-and-unbracketed" if adjud == "bracket-rule" else "accepted-with-wrong-argument-count")
             if adjud is True:
                 m = {"exprs": tuple(case["ins"]) + tuple(case["outs"]), "shapes": list(shapes) + [None] * len(case["outs"]), "kwargs": kw}
                 r["cse_relaxation_feasible"] = c02.relaxation_feasible(m, timeout_ms)
@@ -210,6 +252,9 @@ elif kind.startswith("undocumented-exception-class"):
 elif kind == "accepted-with-wrong-argument-count":
     if out[0] == "returned":
         print("REPRODUCED: call with a wrong number of tensors returned a value"); sys.exit(1)
+elif kind == "accepted-although-axis-is-bracketed-and-unbracketed":
+    if out[0] == "returned":
+        print("REPRODUCED: einx computed a result (shapes %r) for a description that uses an axis name both inside and outside of brackets" % (out[1],)); sys.exit(1)
 elif kind == "accepted-but-no-assignment-exists":
     if out[0] == "returned":
         print("REPRODUCED: einx computed a result (shapes %r) although z3 shows that no assignment of positive integers satisfies the description for these shapes/sizes" % (out[1],)); sys.exit(1)
